@@ -64,7 +64,8 @@ LEVEL = "proof"
 THEOREMS = ["C06_gc_race_safe", "C06_swept_only_abandoned", "C06_unswept_marker_kept", "C06_marker_kernel", "C06_delete_kernel",
             "C06_unmarked_adoption_refuted",
             "C06_tx_markers_cover_payload", "C06_tx_markers_cover_payload_kernels", "C06_dropping_retry_refuted",
-            "C06_dropped_marker_loses_file"]
+            "C06_dropped_marker_loses_file",
+            "C06_marker_key_injective", "C06_basename_marker_collision_refuted"]
 REQ = ["DS.Model.GCRace"]
 REQ_LEDGER = ["DS.Gen.GenTxMarkers", "DS.Model.TxMarkers"]
 MANIFEST_ENTRY = {
@@ -80,16 +81,24 @@ MANIFEST_ENTRY = {
                   "in progress, any number of lost OCC attempts and retries) covers everything it is going to publish at every step up to "
                   "the flip, over kernels regenerated from transaction.py (GenTxMarkers.v: who grows / drops the marker list, what the "
                   "retry arm of commit reaches); C06_dropping_retry_refuted: a retry arm that drops markers publishes an unmarked file; "
+                  "C06_marker_key_injective: the machines give every file its OWN marker, which is a fact about the code iff the marker key "
+                  "_register_inflight writes is injective in the file's table-relative path -- proved of the function REGENERATED from "
+                  "transaction.py (GenNorm.v register_marker_path); C06_basename_marker_collision_refuted: with the key made from the basename "
+                  "(the unchanged library, written down by hand) two accepted files share one marker, the second is adopted unmarked; "
                   "the real collector and real transactions run under the deterministic scheduler in virtual time and their "
                   "storage log must be accepted by the model's strict run (markers before metadata; marker deletions only as the "
                   "regenerated kernel allows); an implementation-only oracle re-reads every retained snapshot",
-    "level_note": "trusted: Coq kernel; translator/gen_gcrace.py, translator/gen_txmarkers.py (fail-closed; the latter classifies uses of "
+    "level_note": "NOT proved (second audit F2-F4, open): the machine's TAdopt is enabled only while no run is announced, whereas the code ignores "
+                  "an announcement older than its grace period (equivalent under the proviso 'run shorter than grace' only); gen_retry_arm_drops "
+                  "inspects the else-arm of the conflict handler only; the order marker / announcement check / existence re-check inside "
+                  "_protect_adopted_files is modelled by hand; markers-before-metadata is hard-wired in GCRace.v (MARKERS_FIRST is used by GC.v only); "
+                  "trusted: Coq kernel; translator/gen_gcrace.py, translator/gen_txmarkers.py, translator/gen_norm.py (fail-closed; the latter classifies uses of "
                   "self._inflight_markers syntactically and over-approximates reachability by every self.<method> mentioned); scheduler harness with virtual clock and virtual "
                   "modification times; transactions younger than the 24 h abandonment window (older ones are traced against the "
                   "model but not judged: the code deliberately stops protecting them)",
     "technique": "Coq invariant proof over a collector x transactions machine stated over regenerated collector kernels + "
                  "scheduled trace validation in virtual time (clock jumps at every point of a transaction, two collection runs, "
-                 "adoption of old pre-built files at every point of a run; adopting / writing+adopting committers that lose the OCC race, "
+                 "adoption of old pre-built files at every point of a run -- also several per transaction and one each in two transactions, in sub-directories of data/ with equal basenames; adopting / writing+adopting committers that lose the OCC race, "
                  "collector at every step of the retry) + per-transaction marker-ledger trace validation",
     "design_ref": "DESIGN.md section 5 C06",
 }
@@ -100,6 +109,36 @@ COLLECTING = "metadata/collecting"   # announcements of collection runs in progr
 STAGED_AGE_MS = 10 * 3600 * 1000     # age of a pre-built file when the schedule starts (older than every grace period used)
 FIELDS = [{"id": 1, "name": "x", "type": "long", "required": False}]
 ADOPTING = ("adopt", "mixed")        # transaction kinds that adopt a pre-built file (append_files)
+
+
+def adopted_names(i: int, spec: Dict[str, Any]) -> List[str]:
+    """The pre-built files transaction i adopts, as paths below data/ (default: one file directly under data/)."""
+    return list(spec.get("files") or [f"prebuilt_{i}.parquet"])
+
+
+INFLIGHT_DIR = "metadata/inflight/"
+
+
+def marker_stem(path: str) -> str:
+    """What a marker's KEY says, independent of how the library names markers: the key below metadata/inflight/ without the
+    '.inflight' suffix."""
+    p = path.lstrip("/")
+    p = p[len(INFLIGHT_DIR):] if p.startswith(INFLIGHT_DIR) else p
+    return p[:-len(".inflight")] if p.endswith(".inflight") else p
+
+
+def marker_file(path: str, known: Any) -> str:
+    """The table-relative path of the file a marker KEY stands for.  A key that spells a whole table-relative path names that
+    file; a bare name names the file of that basename a transaction of this run is known to handle (the first such file: the
+    payload of a marker that is not re-written is the first registration's), else the file of that name under data/ or -- the
+    manifests and lists of a commit -- metadata/manifests/."""
+    stem = marker_stem(path)
+    if "/" in stem:
+        return stem
+    for k in known:
+        if k.rsplit("/", 1)[-1] == stem:
+            return k
+    return ("metadata/manifests/" if stem.startswith("manifest") else "data/") + stem
 
 
 def yield_filter(op: str, path: str, phase: tuple) -> bool:
@@ -198,11 +237,14 @@ def run_case(ctx, txns: List[Dict[str, Any]], chooser_factory, age_jump: int, se
             first = sorted(os.listdir(os.path.join(root, "data")))[0]
             for i, spec in enumerate(txns):
                 if spec["kind"] in ADOPTING:
-                    name = f"prebuilt_{i}.parquet"
-                    shutil.copy(os.path.join(root, "data", first), os.path.join(root, "data", name))
-                    vmtime[f"data/{name}"] = (sc.clock_ms - STAGED_AGE_MS) / 1000.0
-                    staged[name] = {"tx": i, "mtime_ms": sc.clock_ms - STAGED_AGE_MS,
-                                    "size": os.path.getsize(os.path.join(root, "data", name))}
+                    for name in adopted_names(i, spec):
+                        # `name` is the path below data/: any canonical path there is accepted by append_files, in particular
+                        # sub-directories (partition layouts), where two files of one table share their BASENAME
+                        os.makedirs(os.path.dirname(os.path.join(root, "data", name)), exist_ok=True)
+                        shutil.copy(os.path.join(root, "data", first), os.path.join(root, "data", name))
+                        vmtime[f"data/{name}"] = (sc.clock_ms - STAGED_AGE_MS) / 1000.0
+                        staged[name] = {"tx": i, "mtime_ms": sc.clock_ms - STAGED_AGE_MS,
+                                        "size": os.path.getsize(os.path.join(root, "data", name))}
             out["staged"] = staged
             out["kinds"] = {f"A{i}": spec["kind"] for i, spec in enumerate(txns)}
             sc.clock_ms += 10
@@ -217,18 +259,18 @@ def run_case(ctx, txns: List[Dict[str, Any]], chooser_factory, age_jump: int, se
                         return "ok"
                     if spec["kind"] == "adopt":
                         from datashard.data_structures import DataFile, FileFormat
-                        name = f"prebuilt_{i}.parquet"
                         t.append_data([DataFile(file_path=f"/data/{name}", file_format=FileFormat.PARQUET, partition_values={},
-                                                record_count=1, file_size_in_bytes=staged[name]["size"])])
+                                                record_count=1, file_size_in_bytes=staged[name]["size"])
+                                       for name in adopted_names(i, spec)])
                         return "ok"
                     if spec["kind"] == "mixed":
                         # one transaction that WRITES a data file of its own and ADOPTS a pre-built one
                         from datashard.data_structures import DataFile, FileFormat
-                        name = f"prebuilt_{i}.parquet"
                         with t.new_transaction() as tx:
                             tx.append_data(spec["rows"])
                             tx.append_files([DataFile(file_path=f"/data/{name}", file_format=FileFormat.PARQUET, partition_values={},
-                                                      record_count=1, file_size_in_bytes=staged[name]["size"])])
+                                                      record_count=1, file_size_in_bytes=staged[name]["size"])
+                                             for name in adopted_names(i, spec)])
                             tx.commit()
                         return "ok"
                     tx = t.new_transaction().begin()
@@ -353,7 +395,7 @@ def project(out: Dict[str, Any], ntx: int) -> Tuple[List[str], Optional[str], in
     of model files.  The model's unit is a marker-protected FILE: every data file, manifest and manifest list a
     transaction writes gets its own id, in the order the markers appear."""
     evs: List[str] = []
-    fid: Dict[str, int] = {}                  # basename of the protected file -> model file id
+    fid: Dict[str, int] = {}                  # table-relative path of the protected file -> model file id
     owner: Dict[int, int] = {}                # file id -> transaction
     kind: Dict[int, str] = {}                 # file id -> data | manifest | mlist
     state: Dict[int, str] = {}                # file id -> marked | written | flipped | done | rolled | orphaned
@@ -377,7 +419,7 @@ def project(out: Dict[str, Any], ntx: int) -> Tuple[List[str], Optional[str], in
     # pre-built files: in place (with their age) before the first event
     t_first = out["log"][0]["clock"] if out["log"] else 0
     for name, st in sorted(out.get("staged", {}).items()):
-        f = fid[name] = len(fid)
+        f = fid["data/" + name] = len(fid)
         owner[f] = st["tx"]
         kind[f] = "data"
         state[f] = "staged"
@@ -389,6 +431,7 @@ def project(out: Dict[str, Any], ntx: int) -> Tuple[List[str], Optional[str], in
         a, op, path, phase = e["actor"], e["op"], e["path"], e["phase"]
         pcs = P.path_class(path)
         base = path.rsplit("/", 1)[-1]
+        rel = path.lstrip("/")
         if last_clock is not None and e["clock"] > last_clock:
             evs.append(f"Tick {e['clock'] - last_clock}")
         last_clock = e["clock"] if last_clock is None or e["clock"] > last_clock else last_clock
@@ -397,11 +440,11 @@ def project(out: Dict[str, Any], ntx: int) -> Tuple[List[str], Optional[str], in
             if op == "write_file" and pcs == "marker":
                 if "Transaction._register_inflight" not in phase:
                     return evs, f"transaction {t} wrote the marker {base} outside _register_inflight (in {phase[-1] if phase else '?'})", len(fid)
-                name = base[:-len(".inflight")] if base.endswith(".inflight") else base
+                name = marker_file(path, list(fid))
                 if name not in fid:
                     f = fid[name] = len(fid)
                     owner[f] = t
-                    kind[f] = "mlist" if name.startswith("manifest_list") else "manifest" if name.startswith("manifest_") else "data"
+                    kind[f] = {"mlist": "mlist", "manifest": "manifest"}.get(P.path_class(name), "data")
                     state[f] = "marked"
                 if state[fid[name]] == "staged":
                     state[fid[name]] = "adoptmarked"      # append_files registers the marker of a pre-built file
@@ -417,9 +460,9 @@ def project(out: Dict[str, Any], ntx: int) -> Tuple[List[str], Optional[str], in
                             state[f] = "written"
                             evs.append(f"TAdopt {f}%nat")
             elif op == "DataW" or (op == "write_file" and pcs in ("manifest", "mlist") and e["result"] == "ok"):
-                if base not in fid:
+                if rel not in fid:
                     return evs, f"transaction {t} wrote {path} without registering an in-flight marker for it first", len(fid)
-                f = fid[base]
+                f = fid[rel]
                 evs.append(f"TDataW {f}%nat")
                 if state[f] == "marked":
                     state[f] = "written"
@@ -431,7 +474,7 @@ def project(out: Dict[str, Any], ntx: int) -> Tuple[List[str], Optional[str], in
                 if not known_phase:
                     return evs, (f"transaction {t} removed the in-flight marker {base} outside _finish_committed / _rollback "
                                  f"(in {phase[-1] if phase else '?'}): protection dropped while the file may not be reachable yet"), len(fid)
-                name = base[:-len(".inflight")] if base.endswith(".inflight") else base
+                name = marker_file(path, list(fid))
                 f = fid.get(name)
                 if f is None:
                     continue
@@ -451,7 +494,7 @@ def project(out: Dict[str, Any], ntx: int) -> Tuple[List[str], Optional[str], in
                     state[f] = "rolled"
                     evs.append(f"TRollback {f}%nat")
             elif op == "delete_file" and pcs in ("data", "manifest", "mlist") and "Transaction._rollback" in phase:
-                f = fid.get(base)
+                f = fid.get(rel)
                 if f is not None and state[f] in ("marked", "written"):
                     state[f] = "rolled"
                     evs.append(f"TRollback {f}%nat")
@@ -475,7 +518,7 @@ def project(out: Dict[str, Any], ntx: int) -> Tuple[List[str], Optional[str], in
                 evs.append(f"GMarks {timeout}")
             elif op == "delete_file" and pcs == "marker":
                 # the model decides (regenerated kernel): enabled only for a marker older than the abandonment timeout
-                name = base[:-len(".inflight")] if base.endswith(".inflight") else base
+                name = marker_file(path, list(fid))
                 if name not in fid:
                     return evs, f"collector removed an in-flight marker no transaction of this run wrote: {base}", len(fid)
                 evs.append(f"GSweep {fid[name]}%nat")
@@ -487,8 +530,8 @@ def project(out: Dict[str, Any], ntx: int) -> Tuple[List[str], Optional[str], in
             elif op == "list_files" and path.rstrip("/") in ("data", "metadata/manifests"):
                 evs.append(f"GList {out.get('grace', GRACE)}")
             elif op == "delete_file" and pcs in ("data", "manifest", "mlist"):
-                if base in fid:
-                    evs.append(f"GDel {fid[base]}%nat")
+                if rel in fid:
+                    evs.append(f"GDel {fid[rel]}%nat")
                 else:
                     return evs, f"collector deleted a file no transaction of this run wrote (it belongs to the table as set up): {path}", len(fid)
     if gc_open[0] is not None:
@@ -520,7 +563,7 @@ def project_ledger(out: Dict[str, Any], actor: str) -> Tuple[List[str], Optional
         op, path, phase = e["op"], e["path"], e["phase"]
         pcs = P.path_class(path)
         base = path.rsplit("/", 1)[-1]
-        name = base[:-len(".inflight")] if base.endswith(".inflight") else base
+        name = marker_stem(path) if pcs == "marker" else base
         if "Transaction._commit_file_ops" in phase:
             progressed = True
         if op == "write_file" and pcs == "marker" and e["result"] == "ok":
@@ -880,8 +923,15 @@ TXSETS = [
     # contention: the FIRST transaction adopts (or writes and adopts) and loses the OCC race to the second
     [{"kind": "adopt"}, {"kind": "append", "rows": [{"x": 200}]}],
     [{"kind": "mixed", "rows": [{"x": 100}]}, {"kind": "append", "rows": [{"x": 200}]}],
+    # pre-built files in SUB-DIRECTORIES of data/ (partition layouts: append_files accepts every canonical path below data/)
+    # that share their BASENAME: two of them adopted by ONE transaction ...
+    [{"kind": "adopt", "files": ["p1/x.parquet", "p2/x.parquet"]}],
+    # ... and one each by TWO transactions (whatever one transaction does to its markers -- registering, taking back a refused
+    # adoption, cleaning up after its commit or rollback -- must leave the other's file protected)
+    [{"kind": "adopt", "files": ["p1/x.parquet"]}, {"kind": "adopt", "files": ["p2/x.parquet"]}],
 ]
-CONTENDED = (2, 5, 6)                # transaction sets in which transaction 1 can commit under transaction 0
+CONTENDED = (2, 5, 6, 8)             # transaction sets in which transaction 1 can commit under transaction 0
+SUBDIRS = (7, 8)                     # adopted files in sub-directories, same basenames
 
 
 def run(ctx) -> None:
@@ -896,7 +946,7 @@ def run(ctx) -> None:
                          "translator/gen_txmarkers.py (marker-list kernels regenerated from transaction.py, fail-closed)"]
     ctx.assumptions += ["collection run shorter than the grace period (runs violating the proviso are not judged)",
                         "markers younger than the abandonment window (runs with an older marker at a marker load are not judged)"]
-    ctx.proofs(THEOREMS, gen_files=["GenGCRace.v", "GenTxMarkers.v"])
+    ctx.proofs(THEOREMS, gen_files=["GenGCRace.v", "GenTxMarkers.v", "GenNorm.v"])
     ctx.allow_axioms([])
     quick = ctx.tier == "quick"
     exprs, metas, bad = [], [], []
@@ -910,16 +960,19 @@ def run(ctx) -> None:
         if quick and ti == 4:
             continue                                # (append + adopt together: thorough tier)
         _t0 = _time.time()
-        runs = list(explore(ctx, txns, 5000, 2 if quick else 3, (40 if ti < 2 else 25 if ti == 3 else 12 if ti < 5 else 4) if quick else 900 if ti < 5 else 150))
+        runs = list(explore(ctx, txns, 5000, 2 if quick else 3, (40 if ti < 2 else 25 if ti == 3 else 12 if ti < 5 else 10 if ti == 8 else 4) if quick else 900 if ti < 5 else 150))
         if ti == 0 or not quick:
             runs += list(directed(ctx, txns, quick))
         elif ti == 3:
             # a pre-built OLD file adopted and committed at every point of a collection run
             runs += list(directed(ctx, txns, quick, cap=55))
+        elif ti == 7:
+            # ... and several old files of one transaction, in sub-directories
+            runs += list(directed(ctx, txns, quick, cap=45))
         if ti == 2:
             runs += list(directed_retry(ctx, txns, quick))
         if ti in CONTENDED:
-            runs += list(directed_contended(ctx, txns, quick, cap=12 if ti == 2 else 40 if ti == 5 else 24))
+            runs += list(directed_contended(ctx, txns, quick, cap=12 if ti == 2 else 40 if ti == 5 else 18 if ti == 8 else 24))
         if ti == 0:
             runs += list(directed_two_runs(ctx, txns, quick))
             runs += list(directed_delayed_flip(ctx, txns, quick))
@@ -935,7 +988,7 @@ def run(ctx) -> None:
         for k in range((10 if ti < 5 else 3) if quick else 200):
             seed = ctx.rng.randrange(1 << 30)
             runs.append(([("random", seed)], run_case(ctx, txns, lambda sc, seed=seed: S.random_chooser(_r.Random(seed), 0.4), 5000)))
-        secs["+".join(t["kind"] for t in txns)] = round(_time.time() - _t0, 1)
+        secs[f"{ti}:" + "+".join(t["kind"] for t in txns)] = round(_time.time() - _t0, 1)
         for dev, out in runs:
             total += 1
             ctx.count(1, (ti, tuple(out["schedule"])))
@@ -948,7 +1001,7 @@ def run(ctx) -> None:
             if why:
                 cls = ("referenced-file-deleted" if why.startswith("files referenced") else "table-unreadable" if why.startswith("table unreadable")
                        else "deadlock" if why.startswith("deadlock") else "actor-raised")
-                ctx.violation(f"gc-race:{'+'.join(t['kind'] for t in txns)}:{cls}", why,
+                ctx.violation(f"gc-race:{'+'.join(t['kind'] + ('-subdir-x' + str(len(t['files'])) if t.get('files') else '') for t in txns)}:{cls}", why,
                               {"txns": txns, "deviations": list(dev), "schedule": out["schedule"], "age_jump": 5000})
             if not out["deadlock"]:
                 # every transaction of the run against its marker ledger (whatever the collection did)
